@@ -11,7 +11,7 @@
    (That finding such a c without the key is infeasible is cryptography.) *)
 From Coq Require Import List NArith Bool Arith Lia ZifyN ZifyNat ZifyBool.
 From Tink Require Import Bytes AeadFrame AeadFrameProofs Ctr CtrProofs EtM EtMProofs
-  Polyval GcmSiv GcmSivProofs Cmac Xaes XaesProofs Envelope EnvelopeProofs.
+  Polyval GcmSiv GcmSivProofs Cmac Xaes XaesProofs Envelope EnvelopeProofs AeadKeyset AeadKeysetProofs.
 Import ListNotations.
 Open Scope N_scope.
 
@@ -341,6 +341,42 @@ Theorem C02_envelope_never_panics :
     forall c ad, env_dec kek_dec dek_dec c ad <> Panic.
 Proof. intros kd dd HK HD c ad. apply env_dec_no_panic; assumption. Qed.
 Print Assumptions C02_envelope_never_panics.
+
+(* ------------------------------------------------------------------------- *)
+(* Keyset level (aead.New: aead_factory.go wrappedAead.Decrypt over prefixmap):
+   a plaintext is released only if a primitive of the keyset whose prefix is empty
+   or equals the first five bytes of the ciphertext releases it ...               *)
+Theorem C02_keyset_releases_only_via_member :
+  forall ps c ad p, ks_dec ps c ad = Ok p ->
+    exists e, In e ps /\ (pr_prefix e = [] \/ ((5 <= length c)%nat /\ pr_prefix e = firstn 5 c)) /\
+              prim_dec e c ad = Ok p.
+Proof. exact ks_dec_sound. Qed.
+Print Assumptions C02_keyset_releases_only_via_member.
+
+(* ... hence, for full primitives that accept only their own encryptions (the per-key
+   theorems above), only for an encryption of (p, ad) under a key of the keyset *)
+Theorem C02_keyset_accepts_only_member_encryptions :
+  forall ps c ad p,
+    (forall e, In e ps -> pr_legacy e = false /\
+       (forall c ad p, pr_dec e c ad = Ok p -> exists iv, pr_enc e iv p ad = Ok c)) ->
+    ks_dec ps c ad = Ok p -> exists e iv, In e ps /\ pr_enc e iv p ad = Ok c.
+Proof. exact ks_dec_only_own. Qed.
+Print Assumptions C02_keyset_accepts_only_member_encryptions.
+
+(* it is an error exactly when every selectable primitive fails, a member's success is never
+   lost, and the factory (including the legacy adapter's unchecked ciphertext[len(prefix):])
+   never panics when the primitives do not *)
+Theorem C02_keyset_decrypt_total :
+  forall ps, (forall e, In e ps -> forall c ad, pr_dec e c ad <> Panic) ->
+    forall c ad,
+      ks_dec ps c ad <> Panic /\
+      (ks_dec ps c ad = Err <-> forall e, In e ps -> selectable e c -> prim_dec e c ad = Err) /\
+      (forall e p, In e ps -> selectable e c -> prim_dec e c ad = Ok p -> exists p', ks_dec ps c ad = Ok p').
+Proof.
+  intros ps Hn c ad. split; [apply ks_dec_no_panic; exact Hn|]. split; [apply ks_dec_err_iff; exact Hn|].
+  intros e p. apply ks_dec_complete. exact Hn.
+Qed.
+Print Assumptions C02_keyset_decrypt_total.
 
 (* ------------------------------------------------------------------------- *)
 (* Non-vacuity: the laws are satisfiable and a concrete reject/accept pair computes *)
